@@ -15,7 +15,7 @@ import (
 var specC04 = report.Spec{Property: "C04", Check: "C04",
 	Rule: "valid polygons as C01 (all shapes, holes, collapse-prone templates) x grids x ids x flags; oracle per returned tile matrix, all exact: (1) every output vertex lies in a pixel that holds an input vertex and is that pixel's centre, " +
 		"(2) for every output edge the endpoints, the midpoint and every point where it crosses a half-pixel line have Chebyshev distance <= 1/2 pixel (+1e-10 units tolerance) to the input boundary (closed-box/segment separating-axis test, scaled integers), " +
-		"(3) sample locations on a half-pixel lattice (generated odd pixel/8 offset) over the bounding box +- 2 pixels: every location farther than one pixel (Chebyshev) from the input boundary is inside the output (inside a shell with >= 3 vertices and outside its holes) iff it is inside the input (even-odd). " +
+		"(3) sample locations on a half-pixel lattice (generated odd pixel/8 offset) over the bounding box +- 2 pixels, plus per input ring the centre of its bounding box and the centroids of a fan of its triangles: every location farther than one pixel (Chebyshev) from the input boundary is inside the output (inside a shell with >= 3 vertices and outside its holes) iff it is inside the input (even-odd). " +
 		"Non-trivial: >= 10 locations qualified for (3) and (the polygon has a hole, or the routed boundary passes a centre twice or has fewer centres than the input ring has vertices). Distinct by case content.",
 	Assumptions: append([]string{"on grids whose extent does not divide evenly (WebMercatorQuad) the pixel grid of the deepest requested level is used, as the tool does; the deviation from the ideal grid is the subject of C03"}, specC01.Assumptions...)}
 
@@ -215,10 +215,30 @@ func oracleC04(c SnapCase) (o report.Outcome) {
 			offY = 3
 		}
 		qualified := 0
+		// sample locations: the half-pixel lattice, plus for every input ring the centre of its bounding box and the
+		// centroids of a fan of its triangles (small holes and islands are easily missed by the lattice)
+		var locs []P
 		for ix := int64(0); ix < nx; ix += step {
 			for iy := int64(0); iy < ny; iy += step {
 				// location = lo + (ix*s/2 + off*s/8) ; scaled by 8: ix*4*s + off*s
-				p := P{X: ix*4*s + offX*s, Y: iy*4*s + offY*s}
+				locs = append(locs, P{X: ix*4*s + offX*s, Y: iy*4*s + offY*s})
+			}
+		}
+		for _, r := range inRings {
+			if len(r) < 3 {
+				continue
+			}
+			mn, mx := r[0], r[0]
+			for _, p := range r {
+				mn, mx = P{X: min(mn.X, p.X), Y: min(mn.Y, p.Y)}, P{X: max(mx.X, p.X), Y: max(mx.Y, p.Y)}
+			}
+			locs = append(locs, P{X: (mn.X + mx.X) / 2, Y: (mn.Y + mx.Y) / 2})
+			for i := 1; i+1 < len(r) && i < 12; i++ {
+				locs = append(locs, P{X: (r[0].X + r[i].X + r[i+1].X) / 3, Y: (r[0].Y + r[i].Y + r[i+1].Y) / 3})
+			}
+		}
+		{
+			for _, p := range locs {
 				if sb.within(p, 8*s) {
 					continue
 				}
